@@ -399,6 +399,12 @@ type RawContent []byte
 // don't distinguish between ordered and unordered objects in this code.
 func parseTagAndLength(bytes []byte, initOffset int) (ret tagAndLength, offset int, err error) {
 	offset = initOffset
+	// Callers can arrive here with nothing left to read (an explicit tag whose
+	// announced content is missing), so check instead of indexing past the end.
+	if offset >= len(bytes) {
+		err = SyntaxError{"truncated tag or length"}
+		return
+	}
 	b := bytes[offset]
 	offset++
 	ret.class = int(b >> 6)
